@@ -181,6 +181,32 @@ pub fn run(ctx: &mut Ctx) {
             if ok && model != cf {
                 ctx.harness_error("sequential model != closed form after permutation");
             }
+            // The state a replica shows is the same through every way of reading it (added after seeded
+            // change agent-C02-9): after the last offer the key-ordered scan and the latest-per-key
+            // view must show exactly the entries of the closed form, whatever the order of arrival.
+            if ok {
+                use iroh_docs::store::{Query, SortBy, SortDirection};
+                let by_key: Option<Vec<iroh_docs::SignedEntry>> = store
+                    .get_many(ns, Query::all().include_empty().sort_by(SortBy::KeyAuthor, SortDirection::Asc))
+                    .ok()
+                    .and_then(|it| it.collect::<anyhow::Result<Vec<_>>>().ok());
+                let want: std::collections::BTreeSet<E> = cf.plain();
+                match by_key {
+                    Some(v) => {
+                        let got: std::collections::BTreeSet<E> = v.iter().map(E::of).collect();
+                        ctx.count("key_ordered_views_compared", 1);
+                        if got != want || v.len() != want.len() {
+                            ctx.violation(case, "key-ordered-view-depends-on-arrival-order", json!({
+                                "perm": pi, "backend": format!("{backend:?}"),
+                                "missing": want.difference(&got).map(|e| e.short()).collect::<Vec<_>>(),
+                                "extra": got.difference(&want).map(|e| e.short()).collect::<Vec<_>>(),
+                                "sequence": seq.iter().map(|&i| E::of(&offers[i]).short()).collect::<Vec<_>>(),
+                            }));
+                        }
+                    }
+                    None => ctx.violation(case, "key-ordered-scan-failed", json!({"perm": pi})),
+                }
+            }
             drop(store);
         }
     }
